@@ -384,7 +384,7 @@ class EkfBinary:
     """Generated EKF (or Model) + driver, compiled; talk to it in batches."""
 
     def __init__(self, defn, built, config, *, with_ekf=True, compiler="g++", sanitize=True, opt="-O1",
-                 managed=False):
+                 managed=False, render_twice=False):
         self.defn = defn
         self.with_ekf = with_ekf
         self.scratch = Scratch()
@@ -398,6 +398,14 @@ class EkfBinary:
             self.header, self.source, self.generator = generate_ekf(built, config)
         else:
             self.header, self.source, self.generator = generate_model(built, config)
+        self.first_source = self.source
+        if render_twice:
+            # what a build script gets that renders the same generator object again (second output path,
+            # regeneration after inspection): the *second* rendering is what is compiled and run
+            from formak import cpp as _cpp
+
+            self.header = "\n".join(_cpp.header_from_ast(generator=self.generator))
+            self.source = "\n".join(_cpp.source_from_ast(generator=self.generator))
         self.scratch.write("generated/gen.h", self.header)
         self.scratch.write("gen.cpp", self.source)
         self.scratch.write("drv.cpp", ekf_driver_source(defn, with_ekf=with_ekf, managed=managed))
